@@ -343,6 +343,12 @@ func (fr *Frame) frameAllowed() (map[string][]*Term, map[string]bool) {
 		if m.Kind != "sel" {
 			continue
 		}
+		if owner, fs := e.typeWideMod(m, top.paramBindings(), top.fn.Pkg.PkgPath); fs != nil {
+			for _, f := range fs {
+				whole[e.fieldKey(owner, f)] = true
+			}
+			continue
+		}
 		base := top.evalSpecPkg(top.entry.Clone(), m.Args[0], nil, nil, "")
 		bt := base.Ty
 		if p, ok := bt.Underlying().(*types.Pointer); ok {
@@ -411,4 +417,17 @@ func (fr *Frame) frameFact(st *State, k string) *Term {
 		cond = And(cond, Neq(r, a))
 	}
 	return Forall([]*Term{r}, Implies(cond, Eq(Select(nv, r), Select(ov, r))))
+}
+
+// paramBindings: names of the receiver and parameters of the function under contract (they shadow type names).
+func (fr *Frame) paramBindings() map[string]*SVal {
+	out := map[string]*SVal{}
+	sig := fr.fn.Obj.Type().(*types.Signature)
+	if sig.Recv() != nil {
+		out[sig.Recv().Name()] = nil
+	}
+	for i := 0; i < sig.Params().Len(); i++ {
+		out[sig.Params().At(i).Name()] = nil
+	}
+	return out
 }
